@@ -1,284 +1,578 @@
-"""E7 extraction of the geometry tables and formulas (geometry.py, grid.py) as data:
-rotation table, negation table, heading deltas, the 2x2 matrices and interval maps of
-`Orientation.__mul__`, `Position`/`Transform` operators as affine forms, and the grid
-rotation functions as affine index maps."""
+"""E7/E11 geometry as data.
+
+`GeoInterp` computes the *denotation* of the small pure functions of geometry.py (and of
+helpers written in their style): the guarded returns of a function are evaluated for concrete
+enum arguments and symbolic affine coordinates over the extracted literal tables -- first
+return whose dominating guard holds wins.  No statement-level execution, no loops, no heap:
+only (guard, value) tables over finite enum valuations.  `Geometry` derives from it, lazily,
+the rotation table, negation, heading deltas, the 2x2 matrices and interval maps of
+`Orientation.__mul__`, and -- by a separate index-map abstraction -- the grid rotations."""
 from __future__ import annotations
 
 import ast
-from typing import Dict, List, Optional, Tuple
+from typing import Any, Dict, List, Optional, Tuple
 
 from .affine import Aff, NonAffine, aff_of
 from .core import AnalysisError, src
 from .guards import GuardWalk, f_and, formula_of, show, strip_iter, walk_function
-from .index import Func, RepoIndex
+from .index import Cls, Func, Module, RepoIndex
 
 GEOM = 'gym_gridverse/geometry.py'
 GRID = 'gym_gridverse/grid.py'
-TYPES = ('Orientation', 'Position', 'Area', 'Transform', 'Other')
+TAG = {'O': 'Orientation', 'P': 'Position', 'A': 'Area', 'T': 'Transform'}
 
 
-class FiniteEval:
-    """evaluates guards whose atoms are isinstance(<var>, T) and <var> is Orientation.X"""
+class GeoKeyError(Exception):
+    pass
 
-    def __init__(self, index: RepoIndex, world: Dict[str, str]):
-        self.index = index
-        self.world = world   # var -> type name ; var+'@o' -> orientation member
 
-    def holds(self, f) -> bool:
+def P(y: str, x: str):
+    return ('P', (Aff.sym(y), Aff.sym(x)))
+
+
+def A(prefix: str = ''):
+    return ('A', ((Aff.sym(prefix + 'ymin'), Aff.sym(prefix + 'ymax')),
+                  (Aff.sym(prefix + 'xmin'), Aff.sym(prefix + 'xmax'))))
+
+
+NONE = ('X', 'None')
+NOTIMPL = ('X', 'NotImplemented')
+
+
+class GeoInterp:
+    """Values:  ('O', member) | ('E', enum, member) | ('P', (Aff, Aff))
+                | ('A', ((Aff, Aff), (Aff, Aff))) | ('T', P-value, O-value) | ('N', Aff)
+                | ('U', tuple of values) | ('D', dict node, module) | ('X', text)"""
+
+    def __init__(self, index_or_geo):
+        self.index: RepoIndex = getattr(index_or_geo, 'index', index_or_geo)
+        self._walks: Dict[int, GuardWalk] = {}
+        self.gmod = self.index.module(GEOM)
+
+    # ------------------------------------------------------------ dispatch
+    def method(self, cname: str, mname: str) -> Func:
+        c = self.gmod.classes.get(cname)
+        if c is None:
+            raise AnalysisError(f'anchor vanished: class {cname}')
+        m = self.index.method(c, mname)
+        if m is None:
+            # operator aliases: __rmul__ = __mul__
+            alias = c.attrs.get(mname)
+            if isinstance(alias, ast.Name):
+                m = self.index.method(c, alias.id)
+        if m is None:
+            raise AnalysisError(f'anchor vanished: {cname}.{mname}')
+        return m
+
+    def op(self, cname: str, mname: str, me, *others):
+        fn = self.method(cname, mname)
+        ps = [a.arg for a in fn.node.args.args]
+        bound = dict(zip(ps, (me,) + others))
+        return self.call(fn, bound)
+
+    def mul(self, a, b):
+        if a[0] in ('O', 'T'):
+            return self.op(TAG[a[0]], '__mul__', a, b)
+        if b[0] in ('O', 'T'):     # __rmul__ = __mul__
+            c = self.gmod.classes.get(TAG[b[0]])
+            al = c.attrs.get('__rmul__') if c else None
+            if isinstance(al, ast.Name) and al.id == '__mul__':
+                return self.op(TAG[b[0]], '__mul__', b, a)
+        raise AnalysisError(f'cannot multiply {a[0]} * {b[0]}')
+
+    def add(self, a, b):
+        if a[0] == 'P':
+            return self.op('Position', '__add__', a, b)
+        if b[0] == 'P':
+            c = self.gmod.classes.get('Position')
+            al = c.attrs.get('__radd__') if c else None
+            if isinstance(al, ast.Name) and al.id == '__add__':
+                return self.op('Position', '__add__', b, a)
+        raise AnalysisError(f'cannot add {a[0]} + {b[0]}')
+
+    def neg(self, v):
+        if v[0] in TAG and v[0] != 'A':
+            return self.op(TAG[v[0]], '__neg__', v)
+        raise AnalysisError(f'cannot negate {v[0]}')
+
+    # convenience names used by the rules
+    def o_mul_o(self, a, b):
+        return self.mul(a, b)
+
+    def o_mul_p(self, o, p):
+        return self.mul(o, p)
+
+    def o_mul_a(self, o, a):
+        return self.mul(o, a)
+
+    def p_add_p(self, p, q):
+        return self.add(p, q)
+
+    def p_add_a(self, p, a):
+        return self.add(p, a)
+
+    def p_sub_p(self, p, q):
+        return self.op('Position', '__sub__', p, q)
+
+    # ---------------------------------------------------------------- eval
+    def eval(self, e: ast.AST, env: Dict[str, Any], module: Optional[Module] = None,
+             depth: int = 5):
+        module = module or self.gmod
+        ev = lambda x: self.eval(x, env, module, depth)
+        s = src(e)
+        if s in env:
+            return env[s]
+        if isinstance(e, ast.Constant):
+            if isinstance(e.value, bool):
+                return ('B', e.value)
+            if isinstance(e.value, int):
+                return ('N', Aff.const(e.value))
+            if e.value is None:
+                return NONE
+            raise AnalysisError(f'geometry expression: constant `{s}`')
+        if isinstance(e, ast.Name):
+            if e.id == 'NotImplemented':
+                return NOTIMPL
+            vals = module.assigns.get(e.id)
+            tmod = module
+            if not vals:
+                r = self.index.resolve_name(module, e.id)
+                if isinstance(r, tuple) and r and r[0] == 'var':
+                    tmod = r[1]
+                    vals = tmod.assigns.get(r[2])
+            if vals and len(vals) == 1:
+                v = vals[0]
+                if isinstance(v, ast.Dict):
+                    return ('D', v, tmod)
+                if isinstance(v, (ast.Tuple, ast.List, ast.Set)):
+                    return self.eval(v, {}, tmod, depth)
+            r = self.index.resolve_name(module, e.id)
+            if isinstance(r, Func):
+                return ('F', r.name)
+            if isinstance(r, Cls):
+                return ('K', r.name)
+            raise AnalysisError(f'geometry expression: unbound name `{e.id}`')
+        em = self.index.enum_member(e)
+        if em and em[0] == 'Orientation':
+            return ('O', em[1])
+        if em:
+            return ('E', em[0], em[1])
+        if isinstance(e, (ast.Tuple, ast.List, ast.Set)):
+            return ('U', tuple(ev(x) for x in e.elts))
+        if isinstance(e, (ast.ListComp, ast.GeneratorExp)) and len(e.generators) == 1 \
+                and not e.generators[0].is_async:
+            g = e.generators[0]
+            it = ev(g.iter)
+            if it[0] != 'U':
+                raise AnalysisError(f'geometry expression: comprehension over `{src(g.iter)}`')
+            out = []
+            for item in it[1]:
+                env2 = dict(env)
+                self._bind(g.target, item, env2)
+                if all(self._truth(self.eval(c, env2, module, depth)) for c in g.ifs):
+                    out.append(self.eval(e.elt, env2, module, depth))
+            return ('U', tuple(out))
+        if isinstance(e, ast.Attribute):
+            v = ev(e.value)
+            a = e.attr
+            if v[0] == 'G':
+                return ('X', f'{v[1]}.{a}')
+            if v[0] == 'T':
+                if a == 'position':
+                    return v[1]
+                if a == 'orientation':
+                    return v[2]
+                if a == 'transform':
+                    return v
+            if v[0] == 'P':
+                if a == 'y':
+                    return ('N', v[1][0])
+                if a == 'x':
+                    return ('N', v[1][1])
+                if a == 'yx':
+                    return ('U', (('N', v[1][0]), ('N', v[1][1])))
+            if v[0] == 'A':
+                (ymin, ymax), (xmin, xmax) = v[1]
+                table = {'ymin': ymin, 'ymax': ymax, 'xmin': xmin, 'xmax': xmax,
+                         'height': ymax - ymin + 1, 'width': xmax - xmin + 1}
+                if a in table:
+                    return ('N', table[a])
+                if a == 'ys':
+                    return ('U', (('N', ymin), ('N', ymax)))
+                if a == 'xs':
+                    return ('U', (('N', xmin), ('N', xmax)))
+            raise AnalysisError(f'geometry expression: `{s}`')
+        if isinstance(e, ast.Subscript):
+            v = ev(e.value)
+            if v[0] == 'U' and isinstance(e.slice, ast.Constant) and \
+                    isinstance(e.slice.value, int):
+                return v[1][e.slice.value]
+            if v[0] == 'D':
+                return self.lookup(v, ev(e.slice), depth)
+            raise AnalysisError(f'geometry expression: `{s}`')
+        if isinstance(e, ast.UnaryOp) and isinstance(e.op, ast.USub):
+            v = ev(e.operand)
+            if v[0] == 'N':
+                return ('N', -v[1])
+            return self.neg(v)
+        if isinstance(e, ast.UnaryOp) and isinstance(e.op, ast.Not):
+            return ('B', not self._truth(ev(e.operand)))
+        if isinstance(e, ast.BoolOp):
+            vals = [self._truth(ev(v)) for v in e.values]
+            return ('B', all(vals) if isinstance(e.op, ast.And) else any(vals))
+        if isinstance(e, ast.IfExp):
+            return ev(e.body) if self._truth(ev(e.test)) else ev(e.orelse)
+        if isinstance(e, ast.Compare) and len(e.ops) == 1:
+            return ('B', self._compare(e, env, module, depth))
+        if isinstance(e, ast.BinOp):
+            a, b = ev(e.left), ev(e.right)
+            if a[0] == b[0] == 'N':
+                if isinstance(e.op, ast.Add):
+                    return ('N', a[1] + b[1])
+                if isinstance(e.op, ast.Sub):
+                    return ('N', a[1] - b[1])
+                if isinstance(e.op, ast.Mult):
+                    try:
+                        return ('N', a[1] * b[1])
+                    except NonAffine:
+                        raise AnalysisError(f'geometry expression: non-linear `{s}`')
+            if isinstance(e.op, ast.Mult):
+                return self.mul(a, b)
+            if isinstance(e.op, ast.Add):
+                return self.add(a, b)
+            if isinstance(e.op, ast.Sub) and a[0] == b[0] == 'P':
+                return self.p_sub_p(a, b)
+        if isinstance(e, ast.Call):
+            return self._call_expr(e, env, module, depth)
+        raise AnalysisError(f'geometry expression outside the grammar: `{s}`')
+
+    def _bind(self, target: ast.AST, value, env: Dict[str, Any]) -> None:
+        if isinstance(target, ast.Name):
+            env[target.id] = value
+        elif isinstance(target, (ast.Tuple, ast.List)) and value[0] == 'U' and \
+                len(value[1]) == len(target.elts):
+            for t, v in zip(target.elts, value[1]):
+                self._bind(t, v, env)
+        else:
+            raise AnalysisError(f'cannot bind `{src(target)}`')
+
+    def _truth(self, v) -> bool:
+        if v[0] == 'B':
+            return v[1]
+        if v == NONE:
+            return False
+        if v[0] == 'U':
+            return len(v[1]) > 0
+        return True
+
+    def _compare(self, e: ast.Compare, env, module, depth) -> bool:
+        op = e.ops[0]
+        a = self.eval(e.left, env, module, depth)
+        b = self.eval(e.comparators[0], env, module, depth)
+        if isinstance(op, (ast.Is, ast.Eq)):
+            return a == b
+        if isinstance(op, (ast.IsNot, ast.NotEq)):
+            return a != b
+        if isinstance(op, (ast.In, ast.NotIn)):
+            if b[0] == 'D':
+                keys = []
+                for k in b[1].keys:
+                    try:
+                        keys.append(self.eval(k, {}, b[2], depth))
+                    except AnalysisError:
+                        pass
+                r = a in keys
+            elif b[0] == 'U':
+                r = a in b[1]
+            else:
+                raise AnalysisError(f'geometry guard: membership in `{src(e.comparators[0])}`')
+            return r if isinstance(op, ast.In) else not r
+        raise AnalysisError(f'geometry guard outside the grammar: `{src(e)}`')
+
+    def _call_expr(self, e: ast.Call, env, module, depth):
+        f = src(e.func)
+        ev = lambda x: self.eval(x, env, module, depth)
+        kw = {k.arg: k.value for k in e.keywords if k.arg}
+
+        def args_of(names):
+            vals = [ev(a) for a in e.args]
+            for n in names[len(vals):]:
+                if n in kw:
+                    vals.append(ev(kw[n]))
+            return vals
+        if f == 'Transform':
+            a = args_of(['position', 'orientation'])
+            if len(a) == 2:
+                return ('T', a[0], a[1])
+        if f == 'Position':
+            a = args_of(['y', 'x'])
+            if len(a) == 2 and a[0][0] == a[1][0] == 'N':
+                return ('P', (a[0][1], a[1][1]))
+        if f == 'Area':
+            a = args_of(['ys', 'xs'])
+            if len(a) == 2 and all(x[0] == 'U' and len(x[1]) == 2 and
+                                   all(y[0] == 'N' for y in x[1]) for x in a):
+                return ('A', tuple(tuple(y[1] for y in x[1]) for x in a))
+        if f == 'isinstance' and len(e.args) == 2:
+            v = ev(e.args[0])
+            t = e.args[1]
+            names = [src(x) for x in (t.elts if isinstance(t, ast.Tuple) else [t])]
+            return ('B', TAG.get(v[0]) in names)
+        if f == 'Position.from_orientation' and len(e.args) == 1:
+            return self.call(self.method('Position', 'from_orientation'),
+                             {self.method('Position', 'from_orientation').node.args.args[0].arg:
+                              ev(e.args[0])})
+        if isinstance(e.func, ast.Attribute) and e.func.attr == 'get' and 1 <= len(e.args) <= 2:
+            d = ev(e.func.value)
+            if d[0] == 'D':
+                try:
+                    return self.lookup(d, ev(e.args[0]), depth)
+                except GeoKeyError:
+                    return ev(e.args[1]) if len(e.args) == 2 else NONE
+        if isinstance(e.func, ast.Attribute) and e.func.attr in ('front',) and not e.args:
+            v = ev(e.func.value)
+            if v[0] == 'T':
+                fn = self.index.func('gym_gridverse/agent.py', 'Agent.front')
+                return self.call(fn, {fn.node.args.args[0].arg: v})
+        if isinstance(e.func, ast.Name) and e.func.id in module.functions and depth > 0:
+            fn = module.functions[e.func.id]
+            names = [a.arg for a in fn.node.args.posonlyargs + fn.node.args.args
+                     + fn.node.args.kwonlyargs]
+            bound = dict(zip(names, [ev(a) for a in e.args]))
+            for k, v in kw.items():
+                bound[k] = ev(v)
+            return self.call(fn, bound, depth - 1)
+        r = self.index.resolve_callee(module, e.func, None)
+        if isinstance(r, Func) and r.cls is None and depth > 0:
+            names = [a.arg for a in r.node.args.posonlyargs + r.node.args.args
+                     + r.node.args.kwonlyargs]
+            bound = dict(zip(names, [ev(a) for a in e.args]))
+            for k, v in kw.items():
+                bound[k] = ev(v)
+            return self.call(r, bound, depth - 1)
+        if not kw and not any(isinstance(a, ast.Starred) for a in e.args):
+            fv = ev(e.func)
+            if fv[0] in ('F', 'K'):
+                return ('C', fv[1], tuple(ev(a) for a in e.args))
+        raise AnalysisError(f'geometry expression outside the grammar: `{src(e)}`')
+
+    def lookup(self, table, key, depth: int):
+        """value of a dict literal at a key (the last of equal keys wins, as in Python)"""
+        _, node, mod = table
+        hit = None
+        for k, v in zip(node.keys, node.values):
+            if k is None:
+                raise AnalysisError('dict literal with ** expansion')
+            try:
+                kv = self.eval(k, {}, mod, depth)
+            except AnalysisError:
+                continue
+            if kv == key:
+                hit = v
+        if hit is None:
+            raise GeoKeyError(key)
+        return self.eval(hit, {}, mod, depth)
+
+    # --------------------------------------------------------------- guards
+    def holds(self, f, env, module, walk, depth: int) -> bool:
         k = f[0]
         if k == 'true':
             return True
         if k == 'false':
             return False
-        if k == 'not':
-            return not self.holds(f[1])
-        if k == 'and':
-            return all(self.holds(x) for x in f[1:])
-        if k == 'or':
-            return any(self.holds(x) for x in f[1:])
         if k == 'iter':
             return True
+        if k == 'not':
+            return not self.holds(f[1], env, module, walk, depth)
+        if k == 'and':
+            return all(self.holds(x, env, module, walk, depth) for x in f[1:])
+        if k == 'or':
+            return any(self.holds(x, env, module, walk, depth) for x in f[1:])
         if k == 'raises':
-            # try bodies in geometry raise only for foreign operand types
-            return self._raises(f)
+            body = f[2].body[0]
+            val = body.value if isinstance(body, (ast.Assign, ast.Expr, ast.Return)) else None
+            if val is None:
+                raise AnalysisError('unmodelled try body')
+            try:
+                self.eval(walk.expand(val), env, module, depth)
+                return False
+            except GeoKeyError:
+                return 'KeyError' in f[1]
+            except AnalysisError:
+                if 'AttributeError' in f[1] or 'TypeError' in f[1]:
+                    return True
+                raise
         if k == 'atom':
-            return self.atom(f[1])
-        raise AnalysisError(f'formula {k}')
+            return self._truth(self.eval(walk.expand(f[1]), env, module, depth))
+        raise AnalysisError(f'geometry guard outside the grammar: `{show(f)}`')
 
-    def _raises(self, f) -> bool:
-        exc, node = f[1], f[2]
-        body = src(node.body[0])
-        if 'KeyError' in exc:
-            # table lookup keyed by an orientation: raises iff the key is not an Orientation
-            for var, t in self.world.items():
-                if '@' not in var and f'[{var}]' in body:
-                    return t != 'Orientation'
-            return False
-        if 'AttributeError' in exc:
-            for var, t in self.world.items():
-                if '@' not in var and f'{var}.' in body:
-                    return t not in ('Position',)
-            return False
-        raise AnalysisError(f'unmodelled try/except {exc} around `{body}`')
+    def walk_of(self, fn: Func) -> GuardWalk:
+        w = self._walks.get(id(fn.node))
+        if w is None:
+            w = self._walks[id(fn.node)] = walk_function(fn.node)
+        return w
 
-    def atom(self, e: ast.AST) -> bool:
-        if isinstance(e, ast.Call) and src(e.func) == 'isinstance' and len(e.args) == 2:
-            v = src(e.args[0])
-            if v in self.world:
-                t = e.args[1]
-                names = [src(x) for x in (t.elts if isinstance(t, ast.Tuple) else [t])]
-                return self.world[v] in names
-        if isinstance(e, ast.Compare) and len(e.ops) == 1 and \
-                isinstance(e.ops[0], (ast.Is, ast.Eq)):
-            l, r = e.left, e.comparators[0]
-            for a, b in ((l, r), (r, l)):
-                em = self.index.enum_member(b)
-                if em and em[0] == 'Orientation' and src(a) + '@o' in self.world:
-                    return self.world[src(a) + '@o'] == em[1]
-        raise AnalysisError(f'geometry guard atom outside the grammar: `{src(e)}`')
+    def call(self, fn: Func, bound: Dict[str, Any], depth: int = 4):
+        """denotation of a small pure function for the given arguments"""
+        w = self.walk_of(fn)
+        for e in w.events:
+            if e.kind in ('return', 'raise'):
+                if self.holds(strip_iter(e.guard), bound, fn.module, w, depth):
+                    if e.kind == 'raise':
+                        return ('X', 'raise ' + (src(e.value) if e.value is not None else ''))
+                    if e.value is None:
+                        return NONE
+                    return self.eval(w.expand(e.value), bound, fn.module, depth)
+        return NONE
 
 
-def returned(walk: GuardWalk, ev: FiniteEval) -> Optional[ast.AST]:
-    """the value of the return reached in this world (first in program order)"""
-    for e in walk.events:
-        if e.kind in ('return', 'raise') and ev.holds(strip_iter(e.guard)):
-            if e.kind == 'raise':
-                return None
-            return walk.expand(e.value) if e.value is not None else None
-    return None
-
-
+# ---------------------------------------------------------------------------
 class Geometry:
+    """derived geometric data, computed lazily from denotations"""
+
     def __init__(self, index: RepoIndex):
         self.index = index
+        self.gi = GeoInterp(index)
         self.O = index.enum('Orientation')
         self.orients = list(self.O.order)
-        self._tables()
-        self._orientation_mul()
-        self._position_ops()
-        self._transform_ops()
-        self._grid_rotations()
+        self._cache: Dict[str, Any] = {}
 
-    # ------------------------------------------------------------- tables
-    def _okey(self, e: ast.AST) -> str:
-        em = self.index.enum_member(e)
-        if not em or em[0] != 'Orientation':
-            raise AnalysisError(f'expected an Orientation member, got `{src(e)}`')
-        return em[1]
+    def _memo(self, key, fn):
+        if key not in self._cache:
+            self._cache[key] = fn()
+        return self._cache[key]
 
-    def _tables(self) -> None:
-        ix = self.index
-        t = ix.table(GEOM, '_orientation_rotations')
-        if not isinstance(t, ast.Dict):
-            raise AnalysisError('_orientation_rotations is not a dict literal')
-        self.rot: Dict[Tuple[str, str], str] = {}
-        self.rot_dups: List[Tuple[str, str]] = []
-        for k, v in zip(t.keys, t.values):
-            if not (isinstance(k, ast.Tuple) and len(k.elts) == 2):
-                raise AnalysisError('_orientation_rotations key is not a pair')
-            key = (self._okey(k.elts[0]), self._okey(k.elts[1]))
-            if key in self.rot:
-                self.rot_dups.append(key)
-            self.rot[key] = self._okey(v)
-        t = ix.table(GEOM, '_orientation_neg')
-        self.neg = {self._okey(k): self._okey(v) for k, v in zip(t.keys, t.values)}
-        t = ix.table(GEOM, '_position_from_orientation')
-        self.delta: Dict[str, Tuple[int, int]] = {}
-        for k, v in zip(t.keys, t.values):
-            if not (isinstance(v, ast.Call) and src(v.func) == 'Position' and len(v.args) == 2):
-                raise AnalysisError('_position_from_orientation value is not Position(a, b)')
-            a = [aff_of(x, lambda e: None) for x in v.args]
-            if not all(x.is_const() for x in a):
-                raise AnalysisError('_position_from_orientation value is not constant')
-            self.delta[self._okey(k)] = (int(a[0].k), int(a[1].k))
+    # literal tables (for duplicate detection and line numbers only)
+    def table_dups(self, name: str) -> List[Any]:
+        mod = self.index.module(GEOM)
+        vals = mod.assigns.get(name)
+        dups = []
+        if vals and len(vals) == 1 and isinstance(vals[0], ast.Dict):
+            seen = set()
+            for k in vals[0].keys:
+                s = src(k)
+                try:
+                    kv = self.gi.eval(k, {}, mod)
+                except AnalysisError:
+                    continue
+                if kv in seen:
+                    dups.append(s)
+                seen.add(kv)
+        return dups
 
-    # ------------------------------------------------- Orientation.__mul__
-    def _orientation_mul(self) -> None:
-        ix = self.index
-        f = ix.func(GEOM, 'Orientation.__mul__')
-        self.omul = f
-        w = walk_function(f.node)
-        ps = [a.arg for a in f.node.args.args]
-        if len(ps) != 2:
-            raise AnalysisError('Orientation.__mul__ does not take (self, other)')
-        me, other = ps
-        self.M: Dict[str, Tuple[Aff, Aff]] = {}
-        self.AR: Dict[str, Tuple[Tuple[Aff, Aff], Tuple[Aff, Aff]]] = {}
-        self.omul_orient_expr: Dict[str, str] = {}
-        env_pos = {f'{other}.y': Aff.sym('y'), f'{other}.x': Aff.sym('x')}
-        env_area = {f'{other}.{k}': Aff.sym(k) for k in ('ymin', 'ymax', 'xmin', 'xmax')}
-        env_area.update({f'{other}.ys[0]': Aff.sym('ymin'), f'{other}.ys[1]': Aff.sym('ymax'),
-                         f'{other}.xs[0]': Aff.sym('xmin'), f'{other}.xs[1]': Aff.sym('xmax')})
-        for o in self.orients:
-            # Orientation branch
-            r = returned(w, FiniteEval(ix, {other: 'Orientation', me: 'Orientation',
-                                            me + '@o': o}))
-            self.omul_orient_expr[o] = src(r) if r is not None else 'None'
-            # Position branch
-            r = returned(w, FiniteEval(ix, {other: 'Position', me: 'Orientation', me + '@o': o}))
-            if not (isinstance(r, ast.Call) and src(r.func) == 'Position' and len(r.args) == 2):
-                raise AnalysisError(
-                    f'Orientation.__mul__: Position branch for {o} does not return '
-                    f'Position(a, b): `{src(r) if r is not None else None}`')
-            try:
-                self.M[o] = tuple(aff_of(a, lambda e: env_pos.get(src(e))) for a in r.args)
-            except NonAffine as e:
-                raise AnalysisError(f'Orientation.__mul__ Position branch {o}: non-affine {e}')
-            # Area branch
-            r = returned(w, FiniteEval(ix, {other: 'Area', me: 'Orientation', me + '@o': o}))
-            if not (isinstance(r, ast.Call) and src(r.func) == 'Area' and len(r.args) == 2
-                    and all(isinstance(a, ast.Tuple) and len(a.elts) == 2 for a in r.args)):
-                raise AnalysisError(
-                    f'Orientation.__mul__: Area branch for {o} does not return '
-                    f'Area((a, b), (c, d))')
-            try:
-                self.AR[o] = tuple(
-                    tuple(aff_of(a, lambda e: env_area.get(src(e))) for a in t.elts)
-                    for t in r.args)
-            except NonAffine as e:
-                raise AnalysisError(f'Orientation.__mul__ Area branch {o}: non-affine {e}')
+    def line_of(self, name: str) -> int:
+        mod = self.index.module(GEOM)
+        vals = mod.assigns.get(name)
+        return getattr(vals[0], 'lineno', 1) if vals else 1
+
+    @property
+    def rot(self) -> Dict[Tuple[str, str], Optional[str]]:
+        def build():
+            out = {}
+            for a in self.orients:
+                for b in self.orients:
+                    try:
+                        v = self.gi.mul(('O', a), ('O', b))
+                        out[(a, b)] = v[1] if v[0] == 'O' else None
+                    except GeoKeyError:
+                        out[(a, b)] = None
+            return out
+        return self._memo('rot', build)
+
+    @property
+    def neg(self) -> Dict[str, Optional[str]]:
+        def build():
+            out = {}
+            for a in self.orients:
+                try:
+                    v = self.gi.neg(('O', a))
+                    out[a] = v[1] if v[0] == 'O' else None
+                except GeoKeyError:
+                    out[a] = None
+            return out
+        return self._memo('neg', build)
+
+    @property
+    def delta(self) -> Dict[str, Optional[Tuple[int, int]]]:
+        def build():
+            fn = self.gi.method('Position', 'from_orientation')
+            p = fn.node.args.args[0].arg
+            out = {}
+            for a in self.orients:
+                try:
+                    v = self.gi.call(fn, {p: ('O', a)})
+                except GeoKeyError:
+                    v = NONE
+                if v[0] == 'P' and v[1][0].is_const() and v[1][1].is_const():
+                    out[a] = (int(v[1][0].k), int(v[1][1].k))
+                else:
+                    out[a] = None
+            return out
+        return self._memo('delta', build)
+
+    @property
+    def M(self) -> Dict[str, Tuple[Aff, Aff]]:
+        def build():
+            out = {}
+            for o in self.orients:
+                v = self.gi.mul(('O', o), P('y', 'x'))
+                if v[0] != 'P':
+                    raise AnalysisError(f'{o} * Position does not yield a Position: {v}')
+                out[o] = v[1]
+            return out
+        return self._memo('M', build)
+
+    @property
+    def AR(self):
+        def build():
+            out = {}
+            for o in self.orients:
+                v = self.gi.mul(('O', o), A())
+                if v[0] != 'A':
+                    raise AnalysisError(f'{o} * Area does not yield an Area: {v}')
+                out[o] = v[1]
+            return out
+        return self._memo('AR', build)
 
     def mat(self, o: str) -> Tuple[Tuple[int, int], Tuple[int, int]]:
         m = self.M[o]
         return ((int(m[0].c.get('y', 0)), int(m[0].c.get('x', 0))),
                 (int(m[1].c.get('y', 0)), int(m[1].c.get('x', 0))))
 
-    # -------------------------------------------------------- Position ops
-    def _position_ops(self) -> None:
-        ix = self.index
-        out = {}
-        f = ix.func(GEOM, 'Position.__add__')
-        w = walk_function(f.node)
-        me, other = [a.arg for a in f.node.args.args]
-        env = {f'{me}.y': Aff.sym('sy'), f'{me}.x': Aff.sym('sx'),
-               f'{other}.y': Aff.sym('oy'), f'{other}.x': Aff.sym('ox')}
-        env.update({f'{other}.{k}': Aff.sym(k) for k in ('ymin', 'ymax', 'xmin', 'xmax')})
-        r = returned(w, FiniteEval(ix, {other: 'Position'}))
-        out['add_pos'] = self._pos_call(r, env, 'Position.__add__ (Position)')
-        r = returned(w, FiniteEval(ix, {other: 'Area'}))
-        if not (isinstance(r, ast.Call) and src(r.func) == 'Area' and len(r.args) == 2):
-            raise AnalysisError('Position.__add__ (Area) does not return Area(..)')
-        out['add_area'] = tuple(tuple(aff_of(a, lambda e: env.get(src(e))) for a in t.elts)
-                                for t in r.args)
-        f = ix.func(GEOM, 'Position.__sub__')
-        w = walk_function(f.node)
-        me, other = [a.arg for a in f.node.args.args]
-        env = {f'{me}.y': Aff.sym('sy'), f'{me}.x': Aff.sym('sx'),
-               f'{other}.y': Aff.sym('oy'), f'{other}.x': Aff.sym('ox')}
-        r = returned(w, FiniteEval(ix, {other: 'Position'}))
-        out['sub_pos'] = self._pos_call(r, env, 'Position.__sub__')
-        f = ix.func(GEOM, 'Position.__neg__')
-        w = walk_function(f.node)
-        me = f.node.args.args[0].arg
-        env = {f'{me}.y': Aff.sym('sy'), f'{me}.x': Aff.sym('sx')}
-        r = returned(w, FiniteEval(ix, {}))
-        out['neg_pos'] = self._pos_call(r, env, 'Position.__neg__')
-        self.pos_ops = out
-        # __radd__ = __add__
-        c = ix.cls(GEOM, 'Position')
-        self.pos_radd = src(c.attrs['__radd__']) if '__radd__' in c.attrs else None
-
-    def _pos_call(self, r, env, what) -> Tuple[Aff, Aff]:
-        if not (isinstance(r, ast.Call) and src(r.func) == 'Position' and len(r.args) == 2):
-            raise AnalysisError(f'{what} does not return Position(a, b)')
-        try:
-            return tuple(aff_of(a, lambda e: env.get(src(e))) for a in r.args)
-        except NonAffine as e:
-            raise AnalysisError(f'{what}: non-affine {e}')
-
-    # ------------------------------------------------------- Transform ops
-    def _transform_ops(self) -> None:
-        ix = self.index
-        f = ix.func(GEOM, 'Transform.__mul__')
-        w = walk_function(f.node)
-        me, other = [a.arg for a in f.node.args.args]
-        self.tmul: Dict[str, str] = {}
-        ren = {me: 'T', other: 'U'}
-        for t in ('Transform', 'Position', 'Area', 'Orientation'):
-            r = returned(w, FiniteEval(ix, {other: t}))
-            self.tmul[t] = src(_rename(r, ren)) if r is not None else 'None'
-        f = ix.func(GEOM, 'Transform.__neg__')
-        w = walk_function(f.node)
-        me = f.node.args.args[0].arg
-        r = returned(w, FiniteEval(ix, {}))
-        self.tneg = src(_rename(r, {me: 'T'})) if r is not None else 'None'
-        f = ix.func('gym_gridverse/agent.py', 'Agent.front')
-        w = walk_function(f.node)
-        r = returned(w, FiniteEval(ix, {}))
-        self.agent_front = src(r) if r is not None else 'None'
-
     # ------------------------------------------------------ grid rotations
+    @property
+    def grid_rot(self) -> Dict[str, 'IndexMap']:
+        self._grid_rotations()
+        return self._cache['grid_rot']
+
+    @property
+    def grid_rot_name(self) -> Dict[str, str]:
+        self._grid_rotations()
+        return self._cache['grid_rot_name']
+
     def _grid_rotations(self) -> None:
+        if 'grid_rot' in self._cache:
+            return
         ix = self.index
         t = ix.table(GRID, '_grid_rotation_functions')
         if not isinstance(t, ast.Dict):
             raise AnalysisError('_grid_rotation_functions is not a dict literal')
-        self.grid_rot: Dict[str, 'IndexMap'] = {}
-        self.grid_rot_name: Dict[str, str] = {}
+        rot: Dict[str, IndexMap] = {}
+        names: Dict[str, str] = {}
         for k, v in zip(t.keys, t.values):
             if not isinstance(v, ast.Name):
                 raise AnalysisError('_grid_rotation_functions value is not a function name')
+            em = ix.enum_member(k)
+            if not em or em[0] != 'Orientation':
+                raise AnalysisError('_grid_rotation_functions key is not an Orientation')
             fn = ix.func(GRID, v.id)
-            body = fn.body()
-            if not (len(body) == 1 and isinstance(body[0], ast.Return)):
-                w = walk_function(fn.node)
-                r = returned(w, FiniteEval(ix, {}))
-            else:
-                r = body[0].value
-            p = fn.node.args.args[0].arg
-            self.grid_rot[self._okey(k)] = index_map(r, {p: IndexMap.ident()})
-            self.grid_rot_name[self._okey(k)] = v.id
+            rot[em[1]] = function_index_map(fn)
+            names[em[1]] = v.id
+        self._cache['grid_rot'] = rot
+        self._cache['grid_rot_name'] = names
 
 
-def _rename(e: ast.AST, ren: Dict[str, str]) -> ast.AST:
-    import copy
-    e = copy.deepcopy(e)
-    for n in ast.walk(e):
-        if isinstance(n, ast.Name) and n.id in ren:
-            n.id = ren[n.id]
-    return e
-
-
+# ---------------------------------------------------------------------------
 class IndexMap:
     """abstract value of a 2-D list expression: value[i][j] = data[r(i,j)][c(i,j)], with the
     value's dimensions (nr, nc) affine in the source dimensions H, W"""
@@ -307,6 +601,9 @@ class IndexMap:
     def copy_rows(self) -> 'IndexMap':
         return IndexMap(self.r, self.c, self.nr, self.nc, True, True)
 
+    def copy_outer(self) -> 'IndexMap':
+        return IndexMap(self.r, self.c, self.nr, self.nc, True, self.fresh_rows)
+
     def __repr__(self):
         return f'[{self.r}][{self.c}] dims=({self.nr}, {self.nc})'
 
@@ -318,16 +615,17 @@ def index_map(e: ast.AST, env: Dict[str, IndexMap]) -> IndexMap:
         raise AnalysisError(f'unknown 2-D list `{e.id}`')
     if isinstance(e, ast.Subscript) and src(e.slice) == '::-1':
         return index_map(e.value, env).rev_rows()
+    if isinstance(e, ast.Subscript) and src(e.slice) in (':', '::', '::1'):
+        return index_map(e.value, env).copy_outer()
     if isinstance(e, ast.Call):
         f = src(e.func)
         if f == 'zip' and len(e.args) == 1 and isinstance(e.args[0], ast.Starred):
             return index_map(e.args[0].value, env).transpose()
         if f in ('list', 'tuple') and len(e.args) == 1:
-            m = index_map(e.args[0], env)
-            return IndexMap(m.r, m.c, m.nr, m.nc, True, m.fresh_rows)
+            return index_map(e.args[0], env).copy_outer()
         if f == 'reversed' and len(e.args) == 1:
             return index_map(e.args[0], env).rev_rows()
-        if f in ('map',) and len(e.args) == 2 and src(e.args[0]) in ('list', 'tuple'):
+        if f == 'map' and len(e.args) == 2 and src(e.args[0]) in ('list', 'tuple'):
             return index_map(e.args[1], env).copy_rows()
     if isinstance(e, ast.ListComp) and len(e.generators) == 1 and not e.generators[0].ifs \
             and isinstance(e.generators[0].target, ast.Name):
@@ -338,270 +636,47 @@ def index_map(e: ast.AST, env: Dict[str, IndexMap]) -> IndexMap:
                    f'[x for x in {t}]'):
             return inner.copy_rows()
         if elt == t:
-            return IndexMap(inner.r, inner.c, inner.nr, inner.nc, True, inner.fresh_rows)
+            return inner.copy_outer()
         if elt in (f'{t}[::-1]', f'list(reversed({t}))', f'list({t}[::-1])',
                    f'list({t})[::-1]'):
             return inner.rev_cols()
     raise AnalysisError(f'unrecognised 2-D list idiom: `{src(e)}`')
 
 
-# ---------------------------------------------------------------------------
-# Symbolic interpreter of geometric expressions over the *extracted* tables/forms.
-# Values:  ('O', member) | ('P', (Aff, Aff)) | ('A', ((Aff, Aff), (Aff, Aff)))
-#          | ('T', P-value, O-value) | ('N', number)
-class GeoInterp:
-    def __init__(self, g: Geometry):
-        self.g = g
-
-    # primitive operations, all through extracted data
-    def o_mul_o(self, a, b):
-        return ('O', self.g.rot[(a[1], b[1])])
-
-    def o_mul_p(self, o, p):
-        m = self.g.M[o[1]]
-        mp = {'y': p[1][0], 'x': p[1][1]}
-        return ('P', (m[0].subst(mp), m[1].subst(mp)))
-
-    def o_mul_a(self, o, a):
-        ar = self.g.AR[o[1]]
-        (ymin, ymax), (xmin, xmax) = a[1]
-        mp = {'ymin': ymin, 'ymax': ymax, 'xmin': xmin, 'xmax': xmax}
-        return ('A', tuple(tuple(f.subst(mp) for f in pair) for pair in ar))
-
-    def p_add_p(self, p, q):
-        f = self.g.pos_ops['add_pos']
-        mp = {'sy': p[1][0], 'sx': p[1][1], 'oy': q[1][0], 'ox': q[1][1]}
-        return ('P', (f[0].subst(mp), f[1].subst(mp)))
-
-    def p_sub_p(self, p, q):
-        f = self.g.pos_ops['sub_pos']
-        mp = {'sy': p[1][0], 'sx': p[1][1], 'oy': q[1][0], 'ox': q[1][1]}
-        return ('P', (f[0].subst(mp), f[1].subst(mp)))
-
-    def p_add_a(self, p, a):
-        f = self.g.pos_ops['add_area']
-        (ymin, ymax), (xmin, xmax) = a[1]
-        mp = {'sy': p[1][0], 'sx': p[1][1], 'ymin': ymin, 'ymax': ymax,
-              'xmin': xmin, 'xmax': xmax}
-        return ('A', tuple(tuple(x.subst(mp) for x in pair) for pair in f))
-
-    def neg(self, v):
-        if v[0] == 'O':
-            return ('O', self.g.neg[v[1]])
-        if v[0] == 'P':
-            f = self.g.pos_ops['neg_pos']
-            mp = {'sy': v[1][0], 'sx': v[1][1]}
-            return ('P', (f[0].subst(mp), f[1].subst(mp)))
-        if v[0] == 'T':
-            return self.eval(ast.parse(self.g.tneg, mode='eval').body, {'T': v})
-        raise AnalysisError(f'cannot negate {v[0]}')
-
-    def mul(self, a, b):
-        if a[0] == 'O' and b[0] == 'O':
-            return self.o_mul_o(a, b)
-        if a[0] == 'O' and b[0] == 'P':
-            return self.o_mul_p(a, b)
-        if a[0] == 'O' and b[0] == 'A':
-            return self.o_mul_a(a, b)
-        if b[0] == 'O' and a[0] in ('P', 'A'):   # __rmul__ = __mul__
-            return self.mul(b, a)
-        if a[0] == 'T':
-            key = {'T': 'Transform', 'P': 'Position', 'A': 'Area', 'O': 'Orientation'}[b[0]]
-            return self.eval(ast.parse(self.g.tmul[key], mode='eval').body, {'T': a, 'U': b})
-        if b[0] == 'T':
-            return self.mul(b, a)
-        raise AnalysisError(f'cannot multiply {a[0]} * {b[0]}')
-
-    def add(self, a, b):
-        if a[0] == 'P' and b[0] == 'P':
-            return self.p_add_p(a, b)
-        if a[0] == 'P' and b[0] == 'A':
-            return self.p_add_a(a, b)
-        if a[0] == 'A' and b[0] == 'P':   # __radd__ = __add__
-            return self.p_add_a(b, a)
-        raise AnalysisError(f'cannot add {a[0]} + {b[0]}')
-
-    # ------------------------------------------------------------------
-    # evaluation of extracted expressions; `module` gives the scope for tables and helpers
-    def eval(self, e: ast.AST, env: Dict[str, tuple], module=None, depth: int = 4):
-        module = module or self.g.index.module(GEOM)
-        ev = lambda x: self.eval(x, env, module, depth)
-        if isinstance(e, ast.Constant) and isinstance(e.value, int) and \
-                not isinstance(e.value, bool):
-            return ('N', Aff.const(e.value))
-        if isinstance(e, ast.Name):
-            if e.id in env:
-                return env[e.id]
-            vals = module.assigns.get(e.id)
-            if vals and len(vals) == 1 and isinstance(vals[0], ast.Dict):
-                return ('D', vals[0], module)
-            r = self.g.index.resolve_name(module, e.id)
-            if isinstance(r, tuple) and r and r[0] == 'var':
-                tv = r[1].assigns.get(r[2])
-                if tv and len(tv) == 1 and isinstance(tv[0], ast.Dict):
-                    return ('D', tv[0], r[1])
-            raise AnalysisError(f'geometry expression: unbound name `{e.id}`')
-        em = self.g.index.enum_member(e)
-        if em and em[0] == 'Orientation':
-            return ('O', em[1])
-        if em:
-            return ('E', em[0], em[1])
-        if isinstance(e, (ast.Tuple, ast.List)):
-            return ('U', tuple(ev(x) for x in e.elts))
-        if isinstance(e, ast.Attribute):
-            v = ev(e.value)
-            a = e.attr
-            if v[0] == 'T':
-                if a == 'position':
-                    return v[1]
-                if a == 'orientation':
-                    return v[2]
-                if a == 'transform':
-                    return v
-            if v[0] == 'P':
-                if a == 'y':
-                    return ('N', v[1][0])
-                if a == 'x':
-                    return ('N', v[1][1])
-                if a == 'yx':
-                    return ('U', (('N', v[1][0]), ('N', v[1][1])))
-            if v[0] == 'A':
-                (ymin, ymax), (xmin, xmax) = v[1]
-                table = {'ymin': ymin, 'ymax': ymax, 'xmin': xmin, 'xmax': xmax,
-                         'height': ymax - ymin + 1, 'width': xmax - xmin + 1}
-                if a in table:
-                    return ('N', table[a])
-                if a == 'ys':
-                    return ('U', (('N', ymin), ('N', ymax)))
-                if a == 'xs':
-                    return ('U', (('N', xmin), ('N', xmax)))
-            raise AnalysisError(f'geometry expression: `{src(e)}`')
-        if isinstance(e, ast.Subscript):
-            v = ev(e.value)
-            if v[0] == 'U' and isinstance(e.slice, ast.Constant) and \
-                    isinstance(e.slice.value, int):
-                return v[1][e.slice.value]
-            if v[0] == 'D':
-                key = ev(e.slice)
-                return self.lookup(v, key, depth)
-            raise AnalysisError(f'geometry expression: `{src(e)}`')
-        if isinstance(e, ast.UnaryOp) and isinstance(e.op, ast.USub):
-            v = ev(e.operand)
-            if v[0] == 'N':
-                return ('N', -v[1])
-            return self.neg(v)
-        if isinstance(e, ast.BinOp):
-            a, b = ev(e.left), ev(e.right)
-            if a[0] == b[0] == 'N':
-                if isinstance(e.op, ast.Add):
-                    return ('N', a[1] + b[1])
-                if isinstance(e.op, ast.Sub):
-                    return ('N', a[1] - b[1])
-                if isinstance(e.op, ast.Mult):
-                    return ('N', a[1] * b[1])
-                if isinstance(e.op, ast.FloorDiv) and b[1].is_const() and a[1].is_const():
-                    return ('N', Aff.const(a[1].k // b[1].k))
-            if isinstance(e.op, ast.Mult):
-                return self.mul(a, b)
-            if isinstance(e.op, ast.Add):
-                return self.add(a, b)
-            if isinstance(e.op, ast.Sub) and a[0] == b[0] == 'P':
-                return self.p_sub_p(a, b)
-        if isinstance(e, ast.Call):
-            f = src(e.func)
-            args = [ev(a) for a in e.args]
-            if f == 'Transform' and len(args) == 2:
-                return ('T', args[0], args[1])
-            if f == 'Position' and len(args) == 2 and args[0][0] == args[1][0] == 'N':
-                return ('P', (args[0][1], args[1][1]))
-            if f == 'Area' and len(args) == 2 and all(
-                    a[0] == 'U' and len(a[1]) == 2 and all(x[0] == 'N' for x in a[1])
-                    for a in args):
-                return ('A', tuple(tuple(x[1] for x in a[1]) for a in args))
-            if f == 'Position.from_orientation' and len(args) == 1 and args[0][0] == 'O':
-                d = self.g.delta[args[0][1]]
-                return ('P', (Aff.const(d[0]), Aff.const(d[1])))
-            if isinstance(e.func, ast.Name) and e.func.id in module.functions and depth > 0:
-                fn = module.functions[e.func.id]
-                names = [a.arg for a in fn.node.args.posonlyargs + fn.node.args.args]
-                bound = dict(zip(names, args))
-                for k in e.keywords:
-                    if k.arg:
-                        bound[k.arg] = ev(k.value)
-                return self.call(fn, bound, depth - 1)
-        raise AnalysisError(f'geometry expression outside the grammar: `{src(e)}`')
-
-    def lookup(self, table, key, depth: int):
-        _, node, mod = table
-        for k, v in zip(node.keys, node.values):
-            try:
-                kv = self.eval(k, {}, mod, depth)
-            except AnalysisError:
-                continue
-            if kv == key:
-                return self.eval(v, {}, mod, depth)
-        raise GeoKeyError(key)
-
-    def holds(self, f, env, module, walk, depth: int) -> bool:
-        k = f[0]
-        if k == 'true':
-            return True
-        if k == 'false':
-            return False
-        if k == 'iter':
-            return True
-        if k == 'not':
-            return not self.holds(f[1], env, module, walk, depth)
-        if k == 'and':
-            return all(self.holds(x, env, module, walk, depth) for x in f[1:])
-        if k == 'or':
-            return any(self.holds(x, env, module, walk, depth) for x in f[1:])
-        if k == 'raises':
-            body = f[2].body[0]
-            val = body.value if isinstance(body, (ast.Assign, ast.Expr, ast.Return)) else None
-            if val is None:
-                raise AnalysisError('unmodelled try body')
-            try:
-                self.eval(walk.expand(val), env, module, depth)
-                return False
-            except GeoKeyError:
-                return 'KeyError' in f[1]
-        if k == 'atom':
-            e = f[1]
-            if isinstance(e, ast.Call) and src(e.func) == 'isinstance' and len(e.args) == 2:
-                v = self.eval(walk.expand(e.args[0]), env, module, depth)
-                t = e.args[1]
-                names = [src(x) for x in (t.elts if isinstance(t, ast.Tuple) else [t])]
-                tag = {'O': 'Orientation', 'P': 'Position', 'A': 'Area', 'T': 'Transform'}
-                return tag.get(v[0]) in names
-            if isinstance(e, ast.Compare) and len(e.ops) == 1 and \
-                    isinstance(e.ops[0], (ast.Is, ast.Eq)):
-                a = self.eval(walk.expand(e.left), env, module, depth)
-                b = self.eval(walk.expand(e.comparators[0]), env, module, depth)
-                return a == b
-        raise AnalysisError(f'geometry guard outside the grammar: `{show(f)}`')
-
-    def call(self, fn, bound: Dict[str, tuple], depth: int = 3):
-        """denotation of a small pure function: the value of the first return whose guard
-        holds for the given (concrete-enum, symbolic-coordinate) arguments"""
-        w = walk_function(fn.node)
-        for e in w.events:
-            if e.kind in ('return', 'raise'):
-                if self.holds(strip_iter(e.guard), bound, fn.module, w, depth):
-                    if e.kind == 'raise' or e.value is None:
-                        return ('X', src(e.value) if e.value is not None else 'None')
-                    return self.eval(w.expand(e.value), bound, fn.module, depth)
-        return ('X', 'falls off the end')
-
-
-class GeoKeyError(Exception):
-    pass
-
-
-def P(y: str, x: str):
-    return ('P', (Aff.sym(y), Aff.sym(x)))
-
-
-def A(prefix: str = ''):
-    return ('A', ((Aff.sym(prefix + 'ymin'), Aff.sym(prefix + 'ymax')),
-                  (Aff.sym(prefix + 'xmin'), Aff.sym(prefix + 'xmax'))))
+def function_index_map(fn: Func) -> IndexMap:
+    """index map of a rotation function written as straight-line list code: assignments of
+    2-D list expressions, in-place `x.reverse()`, `for row in x: row.reverse()`, return"""
+    p = fn.node.args.args[0].arg
+    env: Dict[str, IndexMap] = {p: IndexMap.ident()}
+    aliased_param = {p}      # names that share storage with the operand
+    mutates_operand = False
+    for st in fn.body():
+        if isinstance(st, ast.Return) and st.value is not None:
+            m = index_map(st.value, env)
+            m.mutates_operand = mutates_operand  # type: ignore
+            return m
+        if isinstance(st, ast.Assign) and len(st.targets) == 1 and \
+                isinstance(st.targets[0], ast.Name):
+            env[st.targets[0].id] = index_map(st.value, env)
+            continue
+        if isinstance(st, ast.Expr) and isinstance(st.value, ast.Call) and \
+                isinstance(st.value.func, ast.Attribute) and st.value.func.attr == 'reverse' \
+                and isinstance(st.value.func.value, ast.Name) and not st.value.args:
+            n = st.value.func.value.id
+            if n not in env:
+                raise AnalysisError(f'unknown 2-D list `{n}`')
+            if not env[n].fresh_outer:
+                mutates_operand = True
+            env[n] = env[n].rev_rows()
+            continue
+        if isinstance(st, ast.For) and isinstance(st.iter, ast.Name) and st.iter.id in env \
+                and len(st.body) == 1 and isinstance(st.body[0], ast.Expr) and \
+                src(st.body[0].value) == f'{src(st.target)}.reverse()':
+            n = st.iter.id
+            if not env[n].fresh_rows:
+                mutates_operand = True
+            env[n] = env[n].rev_cols()
+            continue
+        raise AnalysisError(
+            f'{fn.name}: statement `{src(st)[:60]}` is outside the 2-D list idioms understood')
+    raise AnalysisError(f'{fn.name}: no return')
